@@ -29,9 +29,16 @@ class C03(core.Check):
             'sequence_numerical, timestamp, embedding) drawn from targeted families (random, +/-inf only, all missing, '
             'constant, single value, two values, 13-60 values, frequency ties, two classes, skewed, all blank, repeated '
             'tokens, all-empty sequences, NaN/inf inside sequences, even/odd counts of unsorted timestamps with missing and '
-            'unparseable entries in five formats and datetime64, embeddings with a missing first row) x index labelling '
-            '(default, offset, permuted, duplicated, strings) x observation point (compute_col_stats | Dataset.materialize().col_stats '
+            'unparseable entries in five formats and datetime64, embeddings with a missing first row; float64 edge payloads '
+            '(not float32-exact, > 2^24, denormal, -0.0, 1e39), sentinel look-alike categories, integer categories > 2^53, tokens '
+            'containing other separators; CategoricalDtype / `string` / nullable and narrow integer dtypes; %f and %z text, '
+            'datetime64[s|ms|us|ns] with sub-second parts, tz-aware datetime64 with fixed offsets, object columns of datetime / '
+            'Timestamp; list / tuple / set / ndarray cells; every 100th case - 600th in the thorough tier - scales one dimension '
+            '(rows, categories, token pool, tokens per cell, cell length, sequence length, embedding width) to a rung of the size '
+            'ladder of the stress level; a quarter of the cases compute the statistics twice from one Series) x index labelling '
+            '(default, offset, permuted, duplicated, strings, MultiIndex, DatetimeIndex, > 2^40) x observation point (compute_col_stats | Dataset.materialize().col_stats '
             '| as target column); rendered to pandas from the abstract cells (object and str dtype, int64/Int64/float64). '
+            'Columns with more than 4 200 usable values are judged by the textbook oracle only (the model sorts by insertion). '
             'A case is non-trivial when the column has at least one usable value (statistics computed, not defaulted); '
             'distinct = distinct hash of the abstract case')
     partial_notes = (
@@ -49,10 +56,26 @@ class C03(core.Check):
     def __init__(self):
         self._cache = {}
 
+    _replaying = False
+
+    def replay(self, path):
+        self._replaying = True
+        return super().replay(path)
+
+    def skip_model(self):
+        """SKIP_MODEL for the engine; a printable marker while replaying (core.replay json-dumps the model outcome)"""
+        return 'oracle-only case: not shipped to the Lean model' if self._replaying else core.SKIP_MODEL
+
     # ------------------------------------------------------------------ generation
     def generate(self, rng, n, tier):
-        for _ in range(n):
-            yield G.gen_case(rng)
+        lvl = self.level
+        period = 100 if lvl == 0 else 120 if lvl == 1 else 600
+        for k in range(n):
+            if k % period == 3:
+                # one dimension from the size ladder of the stress level, round robin over the stypes / dimensions
+                yield G.gen_scaled(rng, lvl, k // period, top=k // period < len(G.SCALE_KINDS))
+            else:
+                yield G.gen_case(rng)
 
     # ------------------------------------------------------------------ real side
     def real(self, case):
@@ -68,6 +91,8 @@ class C03(core.Check):
     def model_requests(self, case):
         st = case['stype']
         cells = case['cells']
+        if not G.model_feasible(case):
+            return []
         r = self._cache.get(core.stable_hash(case)) or self.real(case)
         reqs = [{'cmd': 'tables'}]
         if st == 'numerical':
@@ -98,6 +123,8 @@ class C03(core.Check):
 
     def model_outcome(self, case, replies):
         st = case['stype']
+        if not G.model_feasible(case):
+            return self.skip_model()
         tables = replies[0]
         keys = sorted(dict((a, b) for a, b in tables['statsFor'])[st])
         keys_after = sorted(dict((a, b) for a, b in tables['statsAfter'])[st])
@@ -139,6 +166,8 @@ class C03(core.Check):
 
     # ------------------------------------------------------------------ comparison
     def equal(self, real, model):
+        if not isinstance(model, dict):
+            return False
         scale = real.get('scale', 1.0)
 
         def eq(a, b):
@@ -179,7 +208,34 @@ class C03(core.Check):
         st = case['stype']
         labs = [f'stype:{st}', f'family:{st}/{case["family"]}', f'mode:{case["mode"]}', f'index:{case.get("index")}',
                 f'rows:{min(len(case["cells"]), 13)}{"+" if len(case["cells"]) > 13 else ""}']
+        if len(case['cells']) >= 17:
+            from harness import matgen as mg
+            labs.append(mg.size_label('rows', len(case['cells'])))
         labs.append('path:computed' if self.nontrivial_key(case, r) else 'path:defaults')
+        if case.get('scale'):
+            from harness import matgen as mg
+            labs.append(mg.size_label(case['scale'][0], case['scale'][1]) or f"scale:{case['scale'][0]}:small")
+        if not G.model_feasible(case):
+            labs.append('judged:oracle-only(too large for the Lean model)')
+        if case.get('twice'):
+            labs.append('history:statistics-computed-twice-from-one-series')
+        if case.get('prelude_sep') or case.get('prelude_fmt'):
+            labs.append('shared-raw:same-series-under-another-configuration-first')
+        if case.get('box'):
+            labs.append(f'container:{st}/{case["box"]}')
+        if st == 'timestamp' and case.get('r'):
+            rr = case['r']
+            labs.append(f'dtype:time/{rr["kind"]}' + (f'[{rr["unit"]}]' if rr['kind'] != 'str' else f'/{rr["dtype"]}'))
+            if rr.get('tz') is not None or rr['kind'] == 'dt64tz':
+                labs.append('dtype:tz-aware' + (':nonzero-offset' if (rr.get('tz') or rr.get('tzname') not in (None, 'UTC', '+00:00')) else ''))
+            if rr.get('frac') is not None:
+                labs.append('dtype:sub-second')
+        if st in ('numerical', 'sequence_numerical') and case['family'] == 'special':
+            labs.append('value:float64-edge-payloads')
+        if st == 'categorical' and any(c in ('-1', 'nan', 'None', '<NA>', '', -1) for c in case['cells'][:300]):
+            labs.append('value:sentinel-like-category')
+        if st == 'categorical' and any(isinstance(c, int) and abs(c) > 2 ** 24 for c in case['cells'][:300]):
+            labs.append('value:integer-category>2^24')
         if case.get('extra_emb_width'):
             labs.append('two-embedding-blocks')
         for w in ('direct', 'dataset'):
@@ -210,6 +266,10 @@ class C03(core.Check):
 
     # ------------------------------------------------------------------ exhaustive small boxes
     def extra_checks(self, rng, tier, report):
+        try:
+            report['extra']['observed_outside_generated_domain'] = G.probe_outside_domain()
+        except Exception as e:   # noqa
+            report['extra']['observed_outside_generated_domain'] = [f'probe failed: {type(e).__name__}: {e}']
         L = 5 if tier == 'thorough' else 4
         cases = []
         for n in range(1, L + 1):
